@@ -194,8 +194,8 @@ Example br_invariants :
   DocInv rp_view /\ SpecShape rp_view /\ ParentsOk rp_view.
 Proof.
   destruct br_hypotheses as [Hg [Hd [He [Hdt [T [O [He2 [Hdt2 _]]]]]]]].
-  destruct (bridge_reachable (facts_of br_store) true ex_world br_ops 0 br_store Hg Hd He) as [I [S P]].
-  split; [exact I|]. split; [exact S|]. split; [exact (proj1 (P Hdt))|]. split; [exact (proj2 (P Hdt))|].
+  destruct (bridge_reachable (facts_of br_store) true ex_world br_ops 0 br_store Hg Hd He) as [I [S [Nm P]]].
+  split; [exact I|]. split; [exact S|]. split; [exact (P Hdt)|]. split; [exact Nm|].
   split; [apply bridge_docinv; assumption|]. split; [apply bridge_shape; assumption | apply bridge_parents; assumption].
 Qed.
 
